@@ -161,9 +161,11 @@ def resolve_target_state(
         #    silently redirected every existing `#m.child` target into that
         #    unrelated branch. The machine root is the more established
         #    meaning, so it keeps priority.
-        if segments[0] == machine.key:
+        # 🪪 (The machine id is matched as a whole: it may contain dots.)
+        key_segments = machine.key.split(".")
+        if segments[: len(key_segments)] == key_segments:
             try:
-                return _find_descendant(machine, segments[1:])
+                return _find_descendant(machine, segments[len(key_segments) :])
             except StateNotFoundError:
                 # ⤵️ Fall through: a custom id may still match, which keeps
                 #    `#name.child` working when `name` shadows the machine key
